@@ -153,6 +153,67 @@ def rw_option_tail(text: str) -> str:
   return text[:a.body_open + 1] + new_body + text[a.body_close:]
 
 
+def rw_trace_log(text: str) -> str:
+  """R15: thread a ghost trace log through a `fn trace(&self)` body so that "which children were traced" becomes expressible:
+       fn trace(&self)                                   -> fn trace(&self, verif_log: &mut TraceLog)
+       X.trace() / X.mark()                              -> X.trace(verif_log) / X.mark(verif_log)
+       for V in &RECV { V.trace()[;] }                   -> RECV.verif_trace_each(verif_log, true, false);
+       RECV.iter().for_each(|P| BODY) / RECV.keys()...   -> RECV.verif_trace_each(verif_log, <first bound name traced in BODY>, <second ...>)
+     BODY may only consist of `NAME.trace()` statements over the closure's own parameters (anything else: UNDECIDED); a parameter
+     that BODY does not trace yields `false`, so a dropped call changes the verified term.  A bare `self` receiver becomes
+     `self.verif_elems()` (the Deref to the underlying table, stated by the model)."""
+  a = fn_anatomy(text)
+  if re.sub(r'\s+', '', text[a.params_open:a.params_close + 1]) != '(&self)':
+    raise Undecided('R15: %s is not `fn trace(&self)`' % a.name)
+  head = text[:a.params_open] + '(&self, verif_log: &mut TraceLog)'
+  pre = text[a.params_close + 1:a.body_open + 1]
+  body = text[a.body_open + 1:a.body_close]
+  # comments inside the body are blanked (a commented-out loop must not be rewritten or refused)
+  body = ''.join((' ' * len(t.text) if t.kind in ('lc', 'bc') else t.text) for t in rsitems.lex(body))
+  post = text[a.body_close:]
+  LOGARG = 'verif_log'
+
+  def recv_fix(r: str) -> str:
+    r = re.sub(r'\s+', '', r)
+    return 'self.verif_elems()' if r == 'self' else r
+
+  # for loops
+  def for_sub(m):
+    if m.group(1) != m.group(3): raise Undecided('R15: for loop in %s does not trace its own variable' % a.name)
+    return '%s.verif_trace_each(%s, true, false);' % (recv_fix(m.group(2)), LOGARG)
+  body = re.sub(r'for\s+(\w+)\s+in\s+&((?:self)(?:\s*\.\s*\w+)*)\s*\{\s*(\w+)\s*\.\s*trace\(\)\s*;?\s*\}', for_sub, body)
+  if re.search(r'\bfor\b', re.sub(r'for_each', '', body)): raise Undecided('R15: unsupported for loop in %s' % a.name)
+
+  # for_each closures
+  while True:
+    m = re.search(r'((?:self)(?:\s*\.\s*\w+)*)\s*\.\s*(iter|keys|values)\(\)\s*\.\s*for_each\s*\(', body)
+    if not m: break
+    toks = rsitems.lex(body)
+    kopen = next(k for k, t in enumerate(toks) if t.start == m.end() - 1)
+    kclose = rsitems.match_close(toks, kopen)
+    clos = body[toks[kopen].end:toks[kclose].start].strip()
+    cm = re.match(r'^\|\s*(\(\s*(\w+)\s*,\s*(\w+)\s*\)|(\w+))\s*\|\s*(.*)$', clos, flags=re.S)
+    if not cm: raise Undecided('R15: unsupported closure parameters in %s' % a.name)
+    names = [cm.group(2), cm.group(3)] if cm.group(2) else [cm.group(4), None]
+    cb = cm.group(5).strip()
+    if cb.startswith('{') and cb.endswith('}'): cb = cb[1:-1]
+    traced = set()
+    for st in [x.strip() for x in cb.split(';') if x.strip()]:
+      sm = re.match(r'^(\w+)\s*\.\s*trace\(\)$', st)
+      if not sm or sm.group(1) not in [n for n in names if n]: raise Undecided('R15: closure body in %s is not a list of `param.trace()` calls: %r' % (a.name, st))
+      traced.add(sm.group(1))
+    f0 = 'true' if names[0] in traced else 'false'
+    f1 = 'true' if (names[1] is not None and names[1] in traced) else 'false'
+    if m.group(2) == 'values': f0, f1 = 'false', f0
+    call = '%s.verif_trace_each(%s, %s, %s)' % (recv_fix(m.group(1)), LOGARG, f0, f1)
+    body = body[:m.start()] + call + body[toks[kclose].end:]
+  if 'for_each' in body: raise Undecided('R15: unsupported for_each in %s' % a.name)
+  body = re.sub(r'\.\s*trace\(\)', '.trace(%s)' % LOGARG, body)
+  body = re.sub(r'\.\s*mark\(\)', '.mark(%s)' % LOGARG, body)
+  body = re.sub(r'\.\s*marked\(\)', '.marked(%s)' % LOGARG, body)
+  return head + pre + body + post
+
+
 def rw_mut_self(text: str) -> str:
   """R1: `fn f(mut self, ...) { B }` -> `fn f(self, ...) { let mut this = self; B[self:=this] }`"""
   a = fn_anatomy(text)
@@ -614,6 +675,18 @@ def build_unit(name: str, variant: Optional[str] = None, canary: bool = False) -
     over = parse_contracts(os.path.join(d, cfile))
     if not over: raise Undecided('unit %s: variant %s has no contracts' % (name, variant))
     contracts.update(over)
+  gen_prelude = ''
+  if cfg.get('generate'):
+    # contracts (and model structs) generated mechanically from the real struct definitions on every run
+    g = cfg['generate'](REPO)
+    gdir = os.path.join(BUILD, 'vx', name + ('' if not variant else '.' + variant)); os.makedirs(gdir, exist_ok=True)
+    gpath = os.path.join(gdir, 'generated.contracts.vrs')
+    with open(gpath, 'w', encoding='utf-8') as f: f.write(g['contracts'])
+    gen = parse_contracts(gpath)
+    for k in gen:
+      if k in contracts: raise Undecided('unit %s: generated contract collides with a written one: %s' % (name, k))
+    contracts.update(gen)
+    gen_prelude = g.get('prelude', '')
   for c in contracts.values():
     if c.effect:
       # O-06.7: on the completing path the handler's net effect on the operand stack is the ISA table's entry for its opcode
@@ -631,6 +704,7 @@ def build_unit(name: str, variant: Optional[str] = None, canary: bool = False) -
   for pf in cfg.get('prelude_files', ['prelude.rs']):
     pp = os.path.normpath(os.path.join(d, pf))
     if os.path.exists(pp): prelude += open(pp, encoding='utf-8').read() + '\n'
+  prelude += gen_prelude
   spec = open(os.path.join(d, 'spec.rs'), encoding='utf-8').read() if os.path.exists(os.path.join(d, 'spec.rs')) else ''
   for sf in cfg.get('spec_files', []):
     spec = open(os.path.normpath(os.path.join(d, sf)), encoding='utf-8').read() + '\n' + spec
@@ -671,6 +745,7 @@ def build_unit(name: str, variant: Optional[str] = None, canary: bool = False) -
                          min_count=args.get('min', 1 if not args.get('optional') else 0))
         elif rule == 'R1': new = rw_mut_self(new)
         elif rule == 'R4g': new = rw_option_tail(new)
+        elif rule == 'R15': new = rw_trace_log(new)
         elif rule == 'R2': new = rw_slice_match(new)
         elif rule == 'R10': new = rw_project_struct(new, args['keep'])
         elif rule == 'R14': new = rw_named_ops(new)
